@@ -119,7 +119,7 @@ pub fn profiles_for(oracle: &str) -> &'static [&'static str] {
             &["match", "migration", "default", "convertible", "fees", "nonlot", "markers"]
         }
         "queries" => &["match", "config", "migration", "admission", "default"],
-        "attributes" => &["match", "auth", "admission", "default", "convertible", "fees", "nonlot"],
+        "attributes" => &["match", "auth", "admission", "default", "convertible", "fees", "nonlot", "migration"],
         "instantiate_coherence" => &["instantiate"],
         // the state-level oracles: every profile whose books are produced by requests only
         _ => &[
